@@ -750,6 +750,13 @@ def gen_fit(rng, tier):
             ops.append(f"fit linear {rng.below(10**6)} {rng.range(70, 140)} {rng.range(2, 5)} {rng.range(0, 2)} reg {loss} "
                        f"{rng.range(2, 3)} {rng.below(100)} {mid} standard {solver} {fhex(1e-10)} {evals} "
                        f"{fhex(rng.choice([0.1, 0.2, 0.3]))} {rng.choice([10, 16, 32])} {dup} {show_configs(configs)}")
+    # L1-regularised models tuned over two hyper-parameter batches with a fixed-budget non-smooth solver: the fitted model is
+    # sensitive to the solver's STARTING points, i.e. to which earlier trial ml::tune hands over as warm start (seeded C18-c1: a
+    # trial of the batch in flight, present or not depending on the schedule, showed up in about one such fit in five)
+    for k in range(12 if thorough else 5):
+        mid = "elastic_net" if k % 2 == 0 else "lasso"
+        ops.append(f"fit linear {rng.below(10**6)} {rng.range(70, 120)} {rng.range(4, 5)} {rng.range(0, 2)} reg mse 3 {rng.below(100)} "
+                   f"{mid} standard osga {fhex(1e-10)} 1500 {fhex(0.1)} {rng.choice([10, 16])} 0 2 1 1 0 0 16 0 0 0")
     for k in range(90 if thorough else 30):
         configs = pick_configs(rng, tier, 4 if thorough else 3)
         sub = rng.choice(["off", "subsample", "bootstrap"])
@@ -1094,6 +1101,14 @@ def oracle_fit(op, res):
             return (f"{where}: selected features differ from the sequential reference and it is not a near-tie: {flips} of {matched} "
                     f"matched weak-learner fits differ, the worst ({proto}): gradients differ by {gdiff:.3g} relative, scores "
                     f"{sref!r} vs {scfg!r}, RSS margins {mc:.3g} / {mr:.3g} of the squared residuals")
+        if div[0] in ("same", "flip") and div[1] > 0 and div[2] == 0:
+            # not even the FIRST boosting round of any booster (trial, fold) ran on the inputs it had in the sequential reference
+            # (same prototype, same fit samples, gradients within 1e-6): the sub-samples drawn with the fixed seed, or the gradients
+            # at the fitted bias, depend on the configuration. No coin flip of a later round explains that (seeded C18-i2: the
+            # excuse below had swallowed it whenever one of the two runs ended on a zero scale)
+            return (f"{where}: none of the {div[1]} weak-learner fits has a partner in the sequential reference (same prototype, same "
+                    f"fit samples, gradients within 1e-6): already the first boosting round ran on other inputs although seed and "
+                    f"data are the same ({len(cf[4])} vs {len(ref[4])} weak learners; first selected {cf[4][:3]} vs {ref[4][:3]})")
         if len(cf[5]) != len(ref[5]):
             return f"{where}: {len(cf[5])} predictions vs {len(ref[5])}"
         bad = [(i, a, b) for i, (a, b) in enumerate(zip(ref[5], cf[5])) if not close_pred(a, b, scale)]
@@ -1234,6 +1249,8 @@ def classify(op, kind, detail):
         return fam + ":concurrent-differs-from-sequential"
     if "AFTER the concurrent phase" in detail:
         return fam + ":state-leaked-into-later-calls"
+    if "has a partner in the sequential reference" in detail:
+        return fam + ":first-round-inputs-differ"
     if "selected features differ" in detail:
         return fam + ":features-differ"
     if "rounds, the sequential reference" in detail or "tuning trials" in detail:
